@@ -7,7 +7,7 @@ C05 — Equivalent splitter spellings agree; ill-formed split/combine requests a
 Everything the State computes from a splitter goes through `toRPN s`; two spellings with the same binary normal form
 (`normalize`) therefore behave identically in every respect.  One-element lists/tuples do not change the normal form
 (in any context, after the repair of D33); re-bracketing a chain of outer (inner) products changes the normal form but
-not the reference expansion, which transfers to the model by C01.
+not the reference expansion, which transfers to the model by C01 (for all trees, since the repair of D1).
 -/
 namespace PydraModel.StateAlg
 open Spec
@@ -71,20 +71,26 @@ theorem C05_rebracket_inner {α} (elems : Name → List α) (shape : Name → Li
         expandInner_append _ _ (x :: xs) (ys ++ z :: zs) (by simp) (by simp [hy]),
         expandInner_append _ _ ys (z :: zs) hy (by simp), hs]
 
-/-- Transfer to the model: two spellings with the same reference expansion run the same jobs with the same inputs in
-    the same order whenever both are `KeysOK` — in particular for all trees over at most four fields. -/
+/-- Transfer to the model, for ALL trees: two well-formed spellings with the same reference expansion run the same jobs with
+    the same inputs in the same order. -/
 theorem C05_rebracket_model (env : ShapeEnv) (s s' : Spl) (hwf : WellFormed s) (hwf' : WellFormed s')
-    (hk : KeysOK s) (hk' : KeysOK s') (h : expandInd env s = expandInd env s') :
+    (h : expandInd env s = expandInd env s') :
     statesInd env s = statesInd env s' := by
-  rw [C01_refines_ind env s hwf hk, C01_refines_ind env s' hwf' hk', h]
+  rw [C01_refines_ind env s hwf, C01_refines_ind env s' hwf', h]
 
-theorem C05_rebracket_le4 (env : ShapeEnv) (xs ys zs : List Spl)
-    (hwf : WellFormed (.outer (xs ++ [Spl.outer ys] ++ zs))) (hwf' : WellFormed (.outer (xs ++ ys ++ zs)))
-    (h4 : (Spl.outer (xs ++ [Spl.outer ys] ++ zs)).fields.length ≤ 4)
-    (h4' : (Spl.outer (xs ++ ys ++ zs)).fields.length ≤ 4) :
+/-- FULL: flattening a nested outer product anywhere in an outer chain does not change the jobs — any number of fields. -/
+theorem C05_rebracket_outer_model (env : ShapeEnv) (xs ys zs : List Spl)
+    (hwf : WellFormed (.outer (xs ++ [Spl.outer ys] ++ zs))) (hwf' : WellFormed (.outer (xs ++ ys ++ zs))) :
     statesInd env (.outer (xs ++ [Spl.outer ys] ++ zs)) = statesInd env (.outer (xs ++ ys ++ zs)) := by
-  apply C05_rebracket_model env _ _ hwf hwf' (C01_keysOK_of_le4 _ hwf h4) (C01_keysOK_of_le4 _ hwf' h4')
+  apply C05_rebracket_model env _ _ hwf hwf'
   simp only [expandInd, jobs, C05_rebracket_outer]
+
+/-- FULL: the same for inner chains. -/
+theorem C05_rebracket_inner_model (env : ShapeEnv) (xs ys zs : List Spl) (hy : ys ≠ [])
+    (hwf : WellFormed (.inner (xs ++ [Spl.inner ys] ++ zs))) (hwf' : WellFormed (.inner (xs ++ ys ++ zs))) :
+    statesInd env (.inner (xs ++ [Spl.inner ys] ++ zs)) = statesInd env (.inner (xs ++ ys ++ zs)) := by
+  apply C05_rebracket_model env _ _ hwf hwf'
+  simp only [expandInd, jobs, C05_rebracket_inner _ _ xs ys zs hy]
 
 /-! ### validation: which requests are rejected -/
 
@@ -259,6 +265,6 @@ example : ∃ s, splitCheck ⟨some (.inner [.fld 0, .fld 1]), [1, 0], [0, 1, 2,
 
 /-- Non-vacuity for the re-bracketing transfer: `[a, [b, c], d]` against `[a, b, c, d]`. -/
 example : WellFormed (.outer ([.fld 0] ++ [.outer [.fld 1, .fld 2]] ++ [.fld 3])) ∧
-    (Spl.outer ([.fld 0] ++ [.outer [.fld 1, .fld 2]] ++ [.fld 3])).fields.length ≤ 4 := by decide
+    WellFormed (.outer ([.fld 0] ++ [.fld 1, .fld 2] ++ [.fld 3])) := by decide
 
 end PydraModel.StateAlg
